@@ -122,6 +122,39 @@ def run(ctx, ck) -> None:
     pack = table.by_name('PackOperator')
     ck.note('PackOperator selects through a boolean mask array (data-dependent output shape): the property\'s stated exception for argument-passing jit')
 
+    # J5: no memoisation of values computed from (possibly traced) fields
+    CACHING = {'functools.cached_property', 'functools.lru_cache', 'functools.cache', 'equinox.internal.cached_property'}
+    nmeth = 0
+    for cls in table.operators():
+        for name, node in cls.own.items():
+            if not isinstance(node, ast.FunctionDef):
+                continue
+            nmeth += 1
+            for d in node.decorator_list:
+                q = world.qualify(cls.module, d.func if isinstance(d, ast.Call) else d)
+                if q in CACHING:
+                    ck.bad('J3', node, f'{cls.name}.{name} is memoised with {q}: a value computed from the operator\'s (possibly traced) fields is stored on the instance / in a '
+                           'global cache, so the first call under jit leaks a tracer into later eager or differently-traced calls (and frozen modules cannot hold the cache)', instance=f'{cls.name}.{name} cached')
+    ck.floor('J3', nmeth, 100, 'operator methods scanned for memoisation')
+
+    # J2b: non-static fields annotated with a Python scalar type must not receive NumPy/JAX values
+    for cls in table.operators():
+        for f in cls.own_fields:
+            if f.static or not _python_scalar_ann(f.ann_text):
+                continue
+            init = table.resolve(cls, '__init__')
+            if init is None or not isinstance(init.node, ast.FunctionDef):
+                continue
+            S = init.node.args.args[0].arg
+            for st in ast.walk(init.node):
+                if isinstance(st, ast.Assign) and any(isinstance(t, ast.Attribute) and isinstance(t.value, ast.Name) and t.value.id == S and t.attr == f.name for t in st.targets):
+                    kind, why = _pyness(world, table, cls, init.node, st.value, 0)
+                    if kind == 'array':
+                        ck.bad('J2', st, f'{cls.name}.{f.name} is declared {f.ann_text} (a Python value, static under a filtering jit) but can be assigned a NumPy/JAX value ({why}): '
+                               'it then becomes an array leaf, is traced when the operator is a jit argument, and Python-level uses of it (FFT sizes, loop bounds) fail or retrace', instance=f'{cls.name}.{f.name} python scalar')
+                    elif kind == 'py':
+                        ck.ok('J2', st, f'{cls.name}.{f.name}: assigned a Python value ({why})', instance=f'{cls.name}.{f.name} python scalar')
+
     # ------------------------------------------------------------------ J4
     hp = table.get(f'{LAND}.HealpixLandscape')
     w2p = hp.own.get('world2pixel')
@@ -136,6 +169,78 @@ def run(ctx, ck) -> None:
     for c in lands:
         for name in ('__eq__', '__hash__'):
             ck.expect('J4', name not in c.own, c.node, f'{c.name} keeps default {name}', f'{c.name} overrides {name}: static-argument hashing of landscapes changes', instance=f'{c.name}{name}', nontrivial=False)
+
+
+def _python_scalar_ann(text: str) -> bool:
+    import re
+
+    return re.sub(r'\b(int|bool|str|float|None|Optional)\b|[\[\]| ,]', '', text) == '' and text.strip() != ''
+
+
+def _pyness(world, table, cls, fn: ast.FunctionDef, e: ast.AST, depth: int):
+    """'py' (Python scalar), 'array' (NumPy/JAX value) or 'unknown' for an expression inside fn."""
+    if depth > 4:
+        return 'unknown', 'too deep'
+    if isinstance(e, ast.Constant):
+        return 'py', 'literal'
+    if isinstance(e, ast.Name):
+        is_param = e.id in {a.arg for a in fn.args.args + fn.args.kwonlyargs}
+        # the reaching definitions of a local (a parameter may be rebound too)
+        kinds = [('py', f'parameter {e.id} (trusted to match its annotation)')] if is_param else []
+        for st in ast.walk(fn):
+            if isinstance(st, ast.Assign) and any(isinstance(t, ast.Name) and t.id == e.id for t in st.targets):
+                kinds.append(_pyness(world, table, cls, fn, st.value, depth + 1))
+        if any(k[0] == 'array' for k in kinds):
+            return next(k for k in kinds if k[0] == 'array')
+        if kinds and all(k[0] == 'py' for k in kinds):
+            return 'py', 'all reaching definitions are Python values'
+        return 'py', 'no local definition'
+    if isinstance(e, ast.Call):
+        f = e.func
+        if isinstance(f, ast.Name) and f.id in ('int', 'float', 'bool', 'len', 'str', 'round', 'min', 'max', 'abs', 'sum'):
+            return 'py', f'{f.id}(...)'
+        q = world.qualify(module_of(e), f)
+        if q and (q.startswith('numpy.') or q.startswith('jax.')):
+            return 'array', f'result of {q}'
+        if isinstance(f, ast.Attribute) and f.attr in ('item', 'tolist', '__int__', '__index__'):
+            return 'py', f'.{f.attr}()'
+        if isinstance(f, ast.Attribute) and f.attr in ('astype', 'sum', 'prod', 'max', 'min'):
+            inner = _pyness(world, table, cls, fn, f.value, depth + 1)
+            return ('array', f'.{f.attr}() of {inner[1]}') if inner[0] == 'array' else inner
+        # helper method / function of the package: join of its returns
+        target = None
+        if isinstance(f, ast.Attribute) and isinstance(f.value, ast.Name):
+            r = table.resolve(cls, f.attr)
+            target = r.node if r is not None and isinstance(r.node, ast.FunctionDef) else None
+        elif q:
+            t = world.lookup(q)
+            target = t if isinstance(t, ast.FunctionDef) else None
+        if target is not None:
+            kinds = [_pyness(world, table, cls, target, r.value, depth + 1) for r in ast.walk(target) if isinstance(r, ast.Return) and r.value is not None]
+            if any(k[0] == 'array' for k in kinds):
+                k = next(k for k in kinds if k[0] == 'array')
+                return 'array', f'{target.name}() returns {k[1]}'
+            if kinds and all(k[0] == 'py' for k in kinds):
+                return 'py', f'{target.name}() returns Python values'
+        return 'unknown', ast.unparse(e)[:40]
+    if isinstance(e, ast.BinOp):
+        l, r = _pyness(world, table, cls, fn, e.left, depth + 1), _pyness(world, table, cls, fn, e.right, depth + 1)
+        for k in (l, r):
+            if k[0] == 'array':
+                return k
+        if l[0] == r[0] == 'py':
+            return 'py', 'arithmetic on Python values'
+        return 'unknown', ast.unparse(e)[:40]
+    if isinstance(e, ast.UnaryOp):
+        return _pyness(world, table, cls, fn, e.operand, depth + 1)
+    if isinstance(e, ast.IfExp):
+        a, b = _pyness(world, table, cls, fn, e.body, depth + 1), _pyness(world, table, cls, fn, e.orelse, depth + 1)
+        return a if a[0] == 'array' else b if b[0] == 'array' else (a if a[0] == b[0] else ('unknown', ''))
+    if isinstance(e, ast.Attribute) and e.attr in ('shape', 'ndim', 'size'):
+        return 'py', f'.{e.attr}'
+    if isinstance(e, ast.Subscript):
+        return _pyness(world, table, cls, fn, e.value, depth + 1)
+    return 'unknown', ast.unparse(e)[:40]
 
 
 class FieldProxy:
@@ -185,5 +290,6 @@ def controls(world: World) -> list[Control]:
     return [
         Control('aux-key-not-accepted', lambda w: variant(w, LAND, add_key), 'C18.J1'),
         Control('static-array-field', lambda w: variant(w, 'furax._base.core', static_array), 'C18.J2'),
+        Control('numpy-sized-fft', lambda w: edit_def(w, 'furax.operators.toeplitz', 'SymmetricBandToeplitzOperator._get_default_fft_size', lambda fn: replace_expr(fn, 'int(2 ** (additional_power + np.ceil(np.log2(band_number))))', '2 ** (additional_power + np.ceil(np.log2(band_number)).astype(int))')), 'C18.J2'),
         Control('traced-branch', lambda w: edit_def(w, 'furax._base.core', 'HomothetyOperator.mv', lambda fn: replace_expr(fn, 'jax.tree.map(lambda leaf: self.value * leaf, x)', 'jax.tree.map(lambda leaf: self.value * leaf if self.value != 0 else leaf * 0, x)')), 'C18.J3'),
     ]
